@@ -20,7 +20,7 @@ RULE = (
     "format must follow --keep_glyph_names, and the C07 structural validator must pass.  Non-trivial = every case."
 )
 ASSUMPTIONS = ["COLR and SVG evaluators of C01/C02", "F9 (repeat interval) applies here too and is classified by the same predicate"]
-N = {"quick": 40, "thorough": 400}
+N = {"quick": 48, "thorough": 480}
 TIMEOUT = {"quick": 1500, "thorough": 6 * 3600}
 CASE_TIMEOUT = 900
 
@@ -29,7 +29,7 @@ def plan(tier, seed):
     return [{"id": f"{seed}-{i}", "i": i} for i in range(N[tier])]
 
 
-def make_input(r, kind, solid_only=False, with_cpal=False):
+def make_input(r, kind, solid_only=False, with_cpal=False, want_gap=False):
     """-> (font bytes, description)"""
     from vf.drive import inproc
 
@@ -45,7 +45,7 @@ def make_input(r, kind, solid_only=False, with_cpal=False):
             srcs = [svggen.svg_source(r, g, None, gradients=not plain, groups=not plain, vb=(0, 0, r.choice([100, 128, 150]), r.choice([100, 128])))[0] for g in range(r.randint(1, 3))]
         srcs = [s.replace("currentColor", "#223344") for s in srcs]
         gap = False
-        if len(srcs) >= 2 and r.random() < 0.35:
+        if len(srcs) >= 2 and (want_gap or r.random() < 0.35):
             # a source that paints nothing, between two that do: it gets a glyph id but no colour record and no
             # bitmap, so the colour glyphs are no longer one run of consecutive ids
             srcs.insert(r.randint(1, len(srcs) - 1), '<svg xmlns="http://www.w3.org/2000/svg" viewBox="0 0 100 100"></svg>')
@@ -61,7 +61,14 @@ def make_input(r, kind, solid_only=False, with_cpal=False):
         cfg["keep_glyph_names"] = r.random() < 0.5
         cfg["clip_to_viewbox"] = True
         cfg["width"] = r.choice([0, cfg["ascender"] - cfg["descender"]])  # bitmaps of <= 255 px stay representable
-        b = inproc.build([{"svg": s, "codepoints": list(q)} for s, q in zip(srcs, seqs)], cfg)
+        items = [{"svg": s, "codepoints": list(q)} for s, q in zip(srcs, seqs)]
+        notdef = False
+        if want_gap and kind in ("colr1", "colr0"):
+            # a coloured .notdef (as in Nabla): glyph 0 carries colour and cannot be moved next to the other colour
+            # glyphs, so the colour glyph ids stay split into two runs whatever the glue step reorders
+            items.insert(0, {"svg": '<svg xmlns="http://www.w3.org/2000/svg" viewBox="0 0 100 100"><rect x="10" y="10" width="70" height="80" fill="#102030"/><rect x="30" y="30" width="20" height="20" fill="#d02020"/></svg>', "codepoints": [], "glyph_name": ".notdef", "name": "notdef.svg"})
+            notdef = True
+        b = inproc.build(items, cfg)
         data = b.data
         if with_cpal:
             # an OT-SVG font that already carries several CPAL palettes (var(--colorN) palettes of a third party)
@@ -73,7 +80,7 @@ def make_input(r, kind, solid_only=False, with_cpal=False):
             bio = io.BytesIO()
             f.save(bio)
             data = bio.getvalue()
-        return data, {"kind": kind + ("+cpal" if with_cpal else ""), "config": cfg, "sequences": [list(q) for q in seqs], "blank_glyph_between_colour_glyphs": gap}
+        return data, {"kind": kind + ("+cpal" if with_cpal else ""), "config": cfg, "sequences": [list(q) for q in seqs], "blank_glyph_between_colour_glyphs": gap, "coloured_notdef": notdef}
     # third-party style COLRv1
     from fontTools.colorLib.builder import buildCOLR, buildCPAL
     from fontTools.feaLib.builder import addOpenTypeFeaturesFromString
@@ -123,6 +130,8 @@ def run_case(case):
     bitmaps = r.random() < 0.4
     keep = r.random() < 0.5
     colr_version = r.choice([0, 1])
+    if case["i"] % 8 in (0, 3):
+        bitmaps = True  # (make_input below gives these cases a blank glyph between colour glyphs when it can)
     if bitmaps:
         flags.append("--bitmaps")
     if keep:
@@ -132,7 +141,7 @@ def run_case(case):
     res = {"counters": {}, "maxes": {}, "violations": [], "tags": [kind] + flags}
     c = res["counters"]
     try:
-        data, desc = make_input(r, kind, solid_only=(kind == "picosvg" and colr_version == 0), with_cpal=with_cpal)
+        data, desc = make_input(r, kind, solid_only=(kind == "picosvg" and colr_version == 0), with_cpal=with_cpal, want_gap=case["i"] % 8 in (0, 3))
         if with_cpal:
             res["tags"].append("svg-with-cpal")
     except Exception as e:
@@ -181,6 +190,12 @@ def run_case(case):
             res["violations"].append(dict(ctx, what="structure: " + p))
         # ---- tables present
         want = {"COLR", "SVG "} | ({"CBDT", "CBLC"} if bitmaps else set())
+        if bitmaps and desc.get("coloured_notdef") and "CBDT" in after:
+            g0 = after.getGlyphOrder()[0]
+            n0 = sum(1 for sd in after["CBDT"].strikeData if g0 in sd)
+            c["coloured_notdef_bitmaps_checked"] = 1
+            if n0 != 1:
+                res["violations"].append(dict(ctx, what=f"the coloured .notdef has {n0} bitmaps in the output (COLR and SVG paint it)"))
         missing = want - set(after.keys())
         if missing:
             res["violations"].append(dict(ctx, what=f"tables missing from the output: {sorted(missing)}"))
@@ -322,6 +337,8 @@ def run_case(case):
     except Exception:
         res["error"] = traceback.format_exc()[-2000:]
     finally:
+        if os.environ.get("VERIF_KEEP"):
+            shutil.copytree(root, os.path.join(os.environ["VERIF_KEEP"], case["id"]), dirs_exist_ok=True)
         shutil.rmtree(root, ignore_errors=True)
     return res
 
